@@ -840,6 +840,19 @@ impl<'a> Printer<'a> {
                 (true, false) => "pub type",
                 (false, false) => "type",
             };
+            let sugar = a.ctors.len() == 1 && a.ctors[0].name == a.name && !a.ctors[0].fields.is_empty() && a.ctors[0].fields.iter().all(|f| f.0.is_some());
+            if sugar {
+                // record written without an explicit constructor; a tag then sits on the type
+                if let Some(t) = a.tags.first() {
+                    self.out.push_str(&format!("@tag({t})\n"));
+                }
+                self.out.push_str(&format!("{vis} {}{params} {{\n", a.name));
+                for (l, t) in &a.ctors[0].fields {
+                    self.out.push_str(&format!("  {}: {},\n", l.as_ref().unwrap(), self.ty(t)));
+                }
+                self.out.push_str("}\n\n");
+                continue;
+            }
             self.out.push_str(&format!("{vis} {}{params} {{\n", a.name));
             for (ci, c) in a.ctors.iter().enumerate() {
                 if let Some(t) = a.tags.get(ci) {
